@@ -335,36 +335,6 @@ def accessor_only(repo, res):
                 if f.qualname not in allowed[attr]:
                     res.fail(key, f"`{ast.unparse(n)[:60]}` subscripts the kernel argument `{symtab[attr]}` outside its accessor "
                              f"({', '.join(sorted(allowed[attr]))}): the packing contract is bypassed", m.line(n))
-    # accessor bodies
-    f = sm.func("FFCXBackendSymbols.coefficient_dof_access")
-    key = f"{f.key}:offset-of-same-coefficient"
-    res.ob(key)
-    src = ast.unparse(f.node)
-    p = f.params
-    if not re.search(rf"offset = self\.coefficient_offsets\[{p[1]}\]", src) or not re.search(rf"return w\[offset \+ {p[2]}\]", src):
-        res.fail(key, "coefficient_dof_access does not return w[coefficient_offsets[coefficient] + dof_index]", sm.line(f.node))
-    f = sm.func("FFCXBackendSymbols.coefficient_dof_access_blocked")
-    key = f"{f.key}:offset-of-same-coefficient"
-    res.ob(key)
-    src = ast.unparse(f.node)
-    p = f.params
-    if not re.search(rf"coeff_offset = self\.coefficient_offsets\[{p[1]}\]", src) or \
-            not re.search(rf"w\[coeff_offset \+ {p[2]} \* {p[3]} \+ {p[4]}\]", src):
-        res.fail(key, "coefficient_dof_access_blocked does not address w[offset + index*block_size + dof_offset]", sm.line(f.node))
-    f = sm.func("FFCXBackendSymbols.constant_index_access")
-    key = f"{f.key}:offset-of-same-constant"
-    res.ob(key)
-    src = ast.unparse(f.node)
-    p = f.params
-    if not re.search(rf"offset = self\.original_constant_offsets\[{p[1]}\]", src) or not re.search(rf"return c\[offset \+ {p[2]}\]", src):
-        res.fail(key, "constant_index_access does not return c[original_constant_offsets[constant] + index]", sm.line(f.node))
-    # w and c are the right symbols
-    for fn, attr in (("coefficient_dof_access", "coefficients"), ("coefficient_dof_access_blocked", "coefficients"), ("constant_index_access", "constants")):
-        f = sm.func(f"FFCXBackendSymbols.{fn}")
-        key = f"{f.key}:array"
-        res.ob(key)
-        if not re.search(rf"\b(w|c) = self\.{attr}\b", ast.unparse(f.node)):
-            res.fail(key, f"{fn} does not read from self.{attr}", sm.line(f.node))
     # the accessors of constants and directly referenced coefficient dofs are interpreted: which element of c / w do they read?
     from ..absint import Interp as _I2, Node as _N2, Raised as _R2
     from ..lnexec import Exec as _Exec2
@@ -387,6 +357,32 @@ def accessor_only(repo, res):
         ex = _Exec2(())
         return acc.f["array"].f["name"], tuple(ex.index(i) for i in acc.f["indices"])
 
+    # accessor bodies, interpreted: which element of w / c do they address?
+    for fn_, args_, want_, why_ in (
+            ("coefficient_dof_access", [c1, 2], ("w", (8,)), "w[coefficient_offsets[coefficient] + dof_index] (second coefficient, offset 6, dof 2)"),
+            ("constant_index_access", [k1, 3], ("c", (7,)), "c[original_constant_offsets[constant] + index] (second constant, offset 4, index 3)")):
+        f = sm.func(f"FFCXBackendSymbols.{fn_}")
+        res.functions.add(f.key)
+        key = f"{f.key}:offset-of-same-{'coefficient' if fn_.startswith('coeff') else 'constant'}"
+        res.ob(key)
+        try:
+            got = where(it2.call_f(f, [sy] + list(args_)))
+        except (_R2, KeyError, AttributeError) as e:
+            got = f"raises {e}"
+        if got != want_:
+            res.fail(key, f"{fn_} addresses {got}, expected {want_[0]}{list(want_[1])}: {why_}", sm.line(f.node))
+    f = sm.func("FFCXBackendSymbols.coefficient_dof_access_blocked")
+    res.functions.add(f.key)
+    key = f"{f.key}:offset-of-same-coefficient"
+    res.ob(key)
+    try:
+        out_ = it2.call_f(f, [sy, c1, 2, 3, 1])
+        got = where(out_[1]) if isinstance(out_, tuple) and len(out_) == 2 else f"returns {out_!r}"
+    except (_R2, KeyError, AttributeError) as e:
+        got = f"raises {e}"
+    if got != ("w", (13,)):
+        res.fail(key, f"coefficient_dof_access_blocked(second coefficient [offset 6], index 2, block size 3, dof offset 1) addresses {got}, expected w[13] = "
+                 "w[offset + index*block_size + dof_offset]", sm.line(f.node))
     f = am.func("FFCXBackendAccess.constant")
     res.functions.add(f.key)
     key = f"{f.key}:flat-component"
